@@ -1,0 +1,69 @@
+//go:build verif
+
+package product
+
+// Contracts for package product, checked by /verif/govc.  Comment-only file.
+//
+// Every position has its own type parameter.  Labelled families need fp.Named type
+// arguments: they are verified at the pairwise distinct types fp.RuntimeNamed[VT_i].
+
+//@ import "github.com/csgura/fp"
+//@ import "github.com/csgura/fp/hlist"
+//
+// ---- Tuple{N}(a1, …, aN) = (a1, …, aN) ---------------------------------------------------
+//
+//@ schema N=2..21
+//@ lemma tuple{N}Def[<<i=1..N|, |A$i>> any](<<i=1..N|, |a$i A$i>>)
+//@   prop C14
+//@   ensures Eq(Tuple{N}(<<i=1..N|, |a$i>>), fp.Tuple{N}[<<i=1..N|, |A$i>>]{<<i=1..N|, |I$i: a$i>>})
+//@ schema end
+//
+// ---- TupleFromHList{N}(a1 :: … :: aN :: Nil) = (a1, …, aN) -------------------------------
+// ---- LabelledFromHList{N}(a1 :: … :: aN :: Nil) = (a1, …, aN) ----------------------------
+//
+//@ lemma fromHNilDef()
+//@   prop C14
+//@   ensures Eq(FromHNil(hlist.Empty()), fp.Unit{})
+//
+//@ schema N=1..21
+//@ lemma tupleFromHList{N}Def[<<i=1..N|, |A$i>> any](<<i=1..N|, |a$i A$i>>)
+//@   prop C14
+//@   ensures Eq(TupleFromHList{N}(<<i=1..N||hlist.Concat(a$i, >>hlist.Empty()<<i=1..N||)>>), fp.Tuple{N}[<<i=1..N|, |A$i>>]{<<i=1..N|, |I$i: a$i>>})
+//@   ensures Eq(TupleFromHList{N}(hlist.Of{N}(<<i=1..N|, |a$i>>)), fp.Tuple{N}[<<i=1..N|, |A$i>>]{<<i=1..N|, |I$i: a$i>>})
+//
+//@ lemma labelledFromHList{N}Def[<<i=1..N|, |A$i>> fp.Named](<<i=1..N|, |a$i A$i>>)
+//@   prop C14
+//@   inst <<i=1..N|, |fp.RuntimeNamed[VT_$i]>>
+//@   ensures Eq(LabelledFromHList{N}(<<i=1..N||hlist.Concat(a$i, >>hlist.Empty()<<i=1..N||)>>), fp.Labelled{N}[<<i=1..N|, |A$i>>]{<<i=1..N|, |I$i: a$i>>})
+//@   ensures Eq(LabelledFromHList{N}(hlist.Of{N}(<<i=1..N|, |a$i>>)), fp.Labelled{N}[<<i=1..N|, |A$i>>]{<<i=1..N|, |I$i: a$i>>})
+//@ schema end
+//
+// ---- Flatten{N}((a1, (a2, … (a{N-1}, aN)…))) = (a1, …, aN) -------------------------------
+//
+//@ schema N=3..21
+//@ lemma flatten{N}Def[<<i=1..N|, |A$i>> any](t <<i=1..N-1||fp.Tuple2[A$i, >>A{N}<<i=1..N-1||]>>)
+//@   prop C14
+//@   ensures Eq(Flatten{N}(t), fp.Tuple{N}[<<i=1..N|, |A$i>>]{<<i=1..N-1|, |I$i: t<<j=2..i||.I2>>.I1>>, I{N}: t<<j=2..N||.I2>>})
+//@ schema end
+//
+// ---- Lift{N}(f)((a1, …, aN)) = f(a1, …, aN) ----------------------------------------------
+//
+//@ schema N=2..21
+//@ lemma lift{N}Def[<<i=1..N|, |A$i>>, R any](f func(<<i=1..N|, |A$i>>) R, t fp.Tuple{N}[<<i=1..N|, |A$i>>], <<i=1..N|, |a$i A$i>>)
+//@   prop C14
+//@   ensures EqT(Lift{N}(f)(t), f(<<i=1..N|, |t.I$i>>))
+//@   ensures EqT(Lift{N}(f)(Tuple{N}(<<i=1..N|, |a$i>>)), f(<<i=1..N|, |a$i>>))
+//@ schema end
+//
+// ---- pairs (product_op.go) ---------------------------------------------------------------
+//
+//@ lemma pairOpsDef[K, V, R any](t fp.Tuple2[K, V], fk func(K) R, fv func(V) R, fkv func(K, V) R)
+//@   prop C14
+//@   ensures EqT(MapKey(t, fk), fp.Tuple2[R, V]{I1: fk(t.I1), I2: t.I2})
+//@   ensures EqT(MapValue(t, fv), fp.Tuple2[K, R]{I1: t.I1, I2: fv(t.I2)})
+//@   ensures EqT(LiftKey(fkv)(t), fp.Tuple2[R, V]{I1: fkv(t.I1, t.I2), I2: t.I2})
+//@   ensures EqT(LiftValue(fkv)(t), fp.Tuple2[K, R]{I1: t.I1, I2: fkv(t.I1, t.I2)})
+//
+//@ lemma splitDef[T, K, V any](x T, kext func(T) K, vext func(T) V)
+//@   prop C14
+//@   ensures EqT(Split(kext, vext)(x), fp.Tuple2[K, V]{I1: kext(x), I2: vext(x)})
